@@ -216,6 +216,20 @@ func TestVerifC42Dst(t *testing.T) {
 		extra := vC42Value(r, hostile)
 		emit(tmpl, ms, extra, fam, hostile)
 	}
+
+	// life cycle of the substituted values: histories of reloads on a real Manager (zz_verif_c42life_test.go)
+	lr := vNewRand(vSeed() + 424243)
+	specs := vC42LifeDirected()
+	for want := len(specs) + n/6; len(specs) < want; {
+		specs = append(specs, vC42LifeRandom(lr))
+	}
+	for _, sp := range specs {
+		coq, desc, class, nontrivial, err := vC42LifeRunSpec(sp)
+		if err != nil {
+			t.Fatal(err)
+		}
+		out.Case(coq, desc, class, nontrivial)
+	}
 }
 
 type vC42W struct {
